@@ -174,6 +174,7 @@ pub fn run_pipeline<S: Setup>(
     let Some(built) = built else { return p };
     let packing = cfg.packing();
     let recompose = prog.recompose_npo && S::D > 1;
+    let _rc = crate::fields::RecomposeCfg::set(prog.recompose_cfg());
     let (st, cpd) = stage(guarded(|| S::prep_x(&built.circuit, &packing, cfg.profile(), recompose)));
     p.prep = st;
     let (st, traces) = stage(guarded(|| {
